@@ -78,7 +78,7 @@ def run(rep):
     traces = [events[i:i + 3000] for i in range(0, len(events), 3000)]
     for tup, ti, ei, e in judge.run(rep, 'Trace_RoundTrip', list(enumerate(traces)), 'rt'):
         clause = tup[1]
-        field = e['origin'].split('=')[0].replace('variant:', '') if e['origin'].startswith('variant:') else e['origin'].split(' ')[0]
+        field = e['origin'].replace('variant:', '') if e['origin'].startswith('variant:') else e['origin'].split(' ')[0]
         rep.violation('%s|%s|%s' % (e['cls'], clause, field), '%s: %s (%s; compose %s, parse %s n=%s of %s)' % (
             e['cls'], clause, e['origin'], e['compose'], e['parse'], e['n'], e['wire_len']), e)
     rep.assumptions += ['"constructible" = accepted by the class constructor (attr.evolve); a compose() that raises one of the four '
